@@ -245,7 +245,7 @@ def mx_stream(run, tmp, model, quick):
     """three-way on closed #/##-free macro tables: non-recursive tables must agree everywhere (model = cppcheck = gcc);
     on recursive tables a cppcheck != gcc difference is the known re-expansion finding iff the model sides with gcc"""
     rng = run.rng
-    n = 80 if quick else 3000
+    n = 80 if quick else 1200
     jobs = []
     for i in range(n):
         rec = i % 4 == 3
@@ -269,16 +269,16 @@ def mx_stream(run, tmp, model, quick):
         return c, g, src
     with concurrent.futures.ThreadPoolExecutor(max_workers=6) as ex:
         outs = list(ex.map(job, jobs))
-    lines, idx = [], []
-    for (i, rec, table, uses), (c, g, src) in zip(jobs, outs):
-        for k, u in enumerate(uses):
-            lines.append(vlib.enc_case(P.mx_case(table, u)))
-            idx.append((i, k))
-    rcm, mo, _ = vlib.run_lines([model], lines, timeout=600)
     mres = {}
-    for (i, k), o in zip(idx, mo):
-        d = vlib.dec_line(o)
-        mres[(i, k)] = [x.decode("latin-1") for x in d[1:]] + [";"] if d[:1] == [b"O"] else None
+    for (i, rec, table, uses), (c, g, src) in zip(jobs, outs):
+        # one model process per table: an exponential recursive table may exhaust the model's stack
+        try:
+            rcm, mo, _ = vlib.run_lines([model], [vlib.enc_case(P.mx_case(table, u)) for u in uses], timeout=120)
+        except subprocess.TimeoutExpired:
+            mo = []
+        for k, o in enumerate(mo[:len(uses)]):
+            d = vlib.dec_line(o)
+            mres[(i, k)] = [x.decode("latin-1") for x in d[1:]] + [";"] if d[:1] == [b"O"] else None
     nbad, known_rec, hang = 0, None, None
     for (i, rec, table, uses), (c, g, src) in zip(jobs, outs):
         if c == "TIMEOUT":
@@ -286,6 +286,11 @@ def mx_stream(run, tmp, model, quick):
             hang = hang or (rec, src)
             continue
         for k, u in enumerate(uses):
+            if (i, k) not in mres:
+                run.count("mx", None, bucket="model resource limit (%s table, not judged)" % ("recursive" if rec else "non-recursive"))
+                if not rec:
+                    run.violation("mx-model:%d" % i, "the expansion model did not answer on a non-recursive table", {"source": src}, found_input=False)
+                continue
             m = mres.get((i, k))
             ct = c[k] if c else None
             gt = g[k] if g else None
@@ -329,7 +334,7 @@ def macro_stream(run, tmp, quick):
             run.violation(key, "%s / %s : cppcheck -E `%s`, gcc -E `%s`" % ("; ".join(defs), use, " ".join(ct[0]) if ct else "error", " ".join(gt[0])),
                           {"source": P.macro_source(defs, [use]), "cppcheck_E": ct, "gcc_E": gt,
                            "how": "cppcheck -E --max-configs=1 t.c  vs  gcc -E -undef -nostdinc -P t.c"})
-    nfiles = 150 if quick else 4000
+    nfiles = 150 if quick else 2000
     files = [P.gen_macro_file(rng) for _ in range(nfiles)]
 
     def job(idf):
